@@ -170,6 +170,32 @@ theorem Run.congr {S S' : List PS} {x y rest : List Char} {O : List (Event × Bo
   obtain ⟨k, hk, r⟩ := h
   exact ⟨k, hk, fun f => by rw [ro_congr _ _ hxy]; exact r f⟩
 
+theorem finalStep_white (top : PS) (below : List PS)
+    (htop : top = .init ∨ ∃ k, top = .body k .startOrNl ∨ top = .body k .afterSep)
+    {w : List Char} (hw : White w) (inp : List Char) :
+    finalStep (top :: below) (w ++ inp) = finalStep (top :: below) inp := by
+  rcases htop with rfl | ⟨k, rfl | rfl⟩
+  · cases below with
+    | nil => simp only [finalStep, skipMulti_white hw]
+    | cons b bs => rfl
+  · rfl
+  · rfl
+
+theorem ro_white (top : PS) (below : List PS)
+    (htop : top = .init ∨ ∃ k, top = .body k .startOrNl ∨ top = .body k .afterSep)
+    {w : List Char} (hw : White w) {x : Char} (hx : isMulti x = false) (t : List Char) (f : Nat) :
+    ro f (top :: below) (w ++ x :: t) = ro f (top :: below) (x :: t) := by
+  cases f with
+  | zero => rfl
+  | succ n => simp only [ro, runFrom, step_white_multi top below htop hw hx, finalStep_white top below htop hw]
+
+theorem Run.white {top : PS} {below S' : List PS} {rest : List Char} {O : List (Event × Bool)} {K : Nat}
+    (htop : top = .init ∨ ∃ k, top = .body k .startOrNl ∨ top = .body k .afterSep)
+    {w : List Char} (hw : White w) {x : Char} (hx : isMulti x = false) {t : List Char}
+    (h : Run (top :: below) (x :: t) O S' rest K) : Run (top :: below) (w ++ x :: t) O S' rest K := by
+  obtain ⟨k, hk, r⟩ := h
+  exact ⟨k, hk, fun f => by rw [ro_white top below htop hw hx]; exact r f⟩
+
 /-- Induction hypothesis (all layouts), in the shape of C09's `IHs`. -/
 structure RH (n : Nat) : Prop where
   elem : ∀ v : Value, v.size ≤ n → v.wf = true → v ≠ .extant → ∀ (st : Style) (i : Nat) (cur : PS) (below : List PS)
@@ -314,5 +340,223 @@ theorem slot_extant {x : List Char}
     simp only [↓reduceIte] at h2
     exact ((h1.trans h2).mono (by omega)).cast rfl (by simp [obsEmits, emits, obsOf])
 end tails
+
+end SwimVerif.ReconEq
+
+namespace SwimVerif.ReconEq
+open SwimVerif.Recon
+
+theorem itemStart_slot (k : Kind) : ItemStart (.body k .slot) := ⟨k, Or.inr (Or.inr rfl)⟩
+theorem itemStart_req (k : Kind) (req : Bool) : ItemStart (.body k (if req then .afterSep else .startOrNl)) := by
+  cases req
+  · exact ⟨k, Or.inl rfl⟩
+  · exact ⟨k, Or.inr (Or.inl rfl)⟩
+
+theorem afterOf_req (k : Kind) (req : Bool) :
+    afterOf (.body k (if req then .afterSep else .startOrNl)) = .body k .afterValue := by cases req <;> rfl
+
+/-- The value part of a slot (after the padding that follows the colon) and whatever follows it. -/
+theorem slot_value {n : Nat} (ih : RH n) (st : Style) (v : Value) (r : Items) (hvs : v.size ≤ n) (hrs : r.size ≤ n)
+    (hvw : v.wf = true) (hrw : r.wf = true) (k : Kind) (j i : Nat) (br : Bool) (below : List PS) {S' : List PS}
+    (hS : endStack k below = some S') (rest : List Char) {e : List Char} (he : EndW e) :
+    Run (.body k .slot :: below)
+      (pad st ++ (printV st j v ++ (printItems st j i false br r ++ (e ++ k.close :: rest))))
+      (obsV v ++ (obsI r ++ [(kindEndEvent k, false)])) S' rest (4 * v.size + 4 * r.size + 4) := by
+  by_cases hve : v = .extant
+  · subst hve
+    simp only [printV, List.nil_append, obsV, List.cons_append]
+    exact (slot_extant ih st r hrs hrw k j i br below hS rest he (skipSpaces_spaces (pad_spaces st) _)).mono (by omega)
+  · obtain ⟨c, t, hc, hok⟩ := head_value' st j hvw hve
+    obtain ⟨td, tne, te⟩ := tail_facts ih st r hrs hrw k j i br below hS rest he
+    obtain ⟨rest', hsk, hrun⟩ := ih.elem v hvs hvw hve st j (.body k .slot) below _ (itemStart_slot k) td tne (fun _ => te)
+    have ha := after_item ih st r hrs hrw k j i br below hS rest he false hsk
+    simp only [Bool.false_eq_true, ↓reduceIte] at ha
+    have := (hrun.trans ha).mono (show 4 * v.size + (4 * r.size + 4) ≤ 4 * v.size + 4 * r.size + 4 by omega)
+    exact this.congr (skipSpaces_spaces (pad_spaces st) _)
+
+theorem items_step {n : Nat} (ih : RH n) (its : Items) (hs : its.size ≤ n + 1) (hw : its.wf = true) (st : Style)
+    (k : Kind) (j i : Nat) (br : Bool) (below S' : List PS) (rest : List Char) (req : Bool) (w e : List Char)
+    (hww : White w) (he : EndW e) (hS : endStack k below = some S') (h1 : req = false → its.isSoleExtant = false)
+    (h2 : req = true → its ≠ .nil) :
+    Run (.body k (if req then .afterSep else .startOrNl) :: below)
+      (w ++ (printItems st j i true br its ++ (e ++ k.close :: rest)))
+      (obsI its ++ [(kindEndEvent k, false)]) S' rest (4 * its.size + 3) := by
+  cases its with
+  | nil =>
+    cases req with
+    | true => exact absurd rfl (h2 rfl)
+    | false =>
+      simp only [printItems, List.nil_append, obsI]
+      rw [← List.append_assoc]
+      have hwe : White (w ++ e) := by
+        intro c hc
+        rcases List.mem_append.mp hc with hc | hc
+        · exact hww c hc
+        · exact he.white c hc
+      have := run_close_start k false below hS hwe rest
+      simp only [Bool.false_eq_true, ↓reduceIte, plain, List.map_cons, List.map_nil] at this ⊢
+      exact this.mono (by omega)
+  | val v r =>
+    simp only [Items.size] at hs
+    simp only [Items.wf, Bool.and_eq_true] at hw
+    simp only [printItems, ↓reduceIte, List.nil_append, List.append_assoc, obsI, Items.size]
+    by_cases hve : v = .extant
+    · subst hve
+      simp only [printV, List.nil_append, obsV, List.cons_append]
+      refine (item_extant ih st r (by omega) hw.2 k j i br below hS rest he req ?_ hww).mono (by omega)
+      intro hr hrn; subst hrn; have := h1 hr; simp [Items.isSoleExtant] at this
+    · obtain ⟨c, t, hc, hok⟩ := head_value' st j hw.1 hve
+      obtain ⟨f1, _⟩ := okStart_facts hok k
+      obtain ⟨td, tne, te⟩ := tail_facts ih st r (by omega) hw.2 k j i br below hS rest he
+      obtain ⟨rest', hsk, hrun⟩ := ih.elem v (by omega) hw.1 hve st j _ below _ (itemStart_req k req) td tne (fun _ => te)
+      rw [afterOf_req] at hrun
+      have ha := after_item ih st r (by omega) hw.2 k j i br below hS rest he true hsk
+      simp only [↓reduceIte] at ha
+      have hall := (hrun.trans ha).mono (show 4 * v.size + (4 * r.size + 4) ≤ 4 * (1 + v.size + r.size) + 3 by omega)
+      rw [hc] at hall ⊢
+      simp only [List.cons_append] at hall ⊢
+      exact hall.white (Or.inr ⟨k, by cases req <;> simp⟩) hww f1
+  | slot key v r =>
+    simp only [Items.size] at hs
+    simp only [Items.wf, Bool.and_eq_true] at hw
+    obtain ⟨⟨hkw, hvw⟩, hrw⟩ := hw
+    obtain ⟨c1, c2, c3⟩ := colon_facts k
+    simp only [printItems, ↓reduceIte, List.nil_append, List.append_assoc, List.cons_append, obsI, Items.size]
+    have hsv := slot_value ih st v r (by omega) (by omega) hvw hrw k j i br below hS rest he
+    by_cases hke : key = .extant
+    · subst hke
+      simp only [printV, List.nil_append, obsV, List.cons_append]
+      have h0 := step_colon_start k req below
+        (pad st ++ (printV st j v ++ (printItems st j i false br r ++ (e ++ k.close :: rest))))
+      rw [← step_white_multi _ below (Or.inr ⟨k, by cases req <;> simp⟩) hww c1] at h0
+      exact (((Run.of_step h0).trans hsv).mono (by omega)).cast rfl (by simp [obsEmits, emits, obsOf])
+    · obtain ⟨c, t, hc, hok⟩ := head_value' st j hkw hke
+      obtain ⟨f1, _⟩ := okStart_facts hok k
+      have td : TokEnd (':' :: (pad st ++ (printV st j v ++ (printItems st j i false br r ++ (e ++ k.close :: rest))))) := by
+        intro x hx; simp at hx; subst hx; decide
+      obtain ⟨rest', hsk, hrun⟩ := ih.elem key (by omega) hkw hke st j _ below _ (itemStart_req k req) td (by simp)
+        (by intro _; simp [skipSpaces_cons c2, endsRecord])
+      rw [afterOf_req] at hrun
+      have hcol := (Run.of_step (step_colon_after k below
+        (pad st ++ (printV st j v ++ (printItems st j i false br r ++ (e ++ k.close :: rest)))))).congr
+        (x := rest') (by rw [hsk])
+      have hall := ((hrun.trans hcol).trans hsv).mono
+        (show 4 * key.size + 1 + (4 * v.size + 4 * r.size + 4) ≤ 4 * (1 + key.size + v.size + r.size) + 3 by omega)
+      have hall' := hall.cast rfl (show obsV key ++ obsEmits [Event.slot] false _ ++ (obsV v ++ (obsI r ++ [(kindEndEvent k, false)]))
+          = obsV key ++ ((Event.slot, false) :: (obsV v ++ (obsI r ++ [(kindEndEvent k, false)]))) by
+        simp [obsEmits, emits, obsOf])
+      rw [hc] at hall' ⊢
+      simp only [List.cons_append, List.append_assoc] at hall' ⊢
+      exact hall'.white (Or.inr ⟨k, by cases req <;> simp⟩) hww f1
+
+end SwimVerif.ReconEq
+
+namespace SwimVerif.ReconEq
+open SwimVerif.Recon
+
+/-! ### attributes -/
+
+/-- In this context an `@` is handed to `primary_attr` (`primary = true`) / `secondary_attr`. -/
+def AttrCtx (primary : Bool) (cur0 : PS) (B : List PS) : Prop :=
+  ∀ t, step (cur0 :: B) ('@' :: t) = attrStep primary cur0 B ('@' :: t)
+
+theorem attrCtx_item {cur : PS} (hc : ItemStart cur) (B : List PS) : AttrCtx true cur B := by
+  intro t
+  rw [step_value hc B (by decide)]
+  unfold valueStep
+  rw [lexPrimM_not_start true (by decide)]
+  simp only
+  cases h : attrStep true cur B ('@' :: t) <;> simp only []
+  unfold attrStep at h
+  cases hl : lexAttr ('@' :: t) with
+  | ok p r => obtain ⟨nm, b⟩ := p; cases b <;> simp [hl] at h
+  | inc => simp [hl] at h
+  | err => rfl
+
+theorem attrCtx_afterAttr (B : List PS) : AttrCtx false .afterAttr B := by
+  intro t
+  simp only [step, skipSpaces_cons at_facts.1, stepAfterAttr, lexPrimM_not_start true (show primStart '@' = false by decide)]
+  cases h : attrStep false .afterAttr B ('@' :: t) <;> simp only []
+  unfold attrStep at h
+  cases hl : lexAttr ('@' :: t) with
+  | ok p r => obtain ⟨nm, b⟩ := p; cases b <;> simp [hl] at h
+  | inc => simp [hl] at h
+  | err =>
+    have hp : peekTerminator ('@' :: t) = .err := by
+      simp [peekTerminator, show isSep '@' = false by decide, lineEndM]
+    simp [hp]
+
+theorem attrCtx_init (B : List PS) : AttrCtx false .init B := by
+  intro t
+  simp only [step, skipSpaces_cons at_facts.1, skipMulti_cons (show isMulti '@' = false by decide), stepInit,
+    lexPrimM_not_start false (show primStart '@' = false by decide)]
+  cases h : attrStep false .init B ('@' :: t) <;> simp only []
+  unfold attrStep at h
+  cases hl : lexAttr ('@' :: t) with
+  | ok p r => obtain ⟨nm, b⟩ := p; cases b <;> simp [hl] at h
+  | inc => simp [hl] at h
+  | err => rfl
+
+theorem attrStep_body (primary : Bool) (cur0 : PS) (B : List PS) (nm r : List Char) :
+    attrStep primary cur0 B ('@' :: (attrName nm ++ '(' :: r)) =
+      .ok [.startAttr nm] false
+        (if primary then .body .ab .startOrNl :: .init :: cur0 :: B else .body .ab .startOrNl :: cur0 :: B) r := by
+  unfold attrStep
+  rw [lexAttr_body]
+  cases primary <;> rfl
+
+theorem attrStep_nobody (primary : Bool) (cur0 : PS) (B : List PS) (nm : List Char) {x : Char} (xs : List Char)
+    (hx : isIdentChar x = false) (hp : x ≠ '(') :
+    attrStep primary cur0 B ('@' :: (attrName nm ++ x :: xs)) =
+      .ok [.startAttr nm, .endAttr] false (if primary then .afterAttr :: cur0 :: B else .afterAttr :: B) (x :: xs) := by
+  unfold attrStep
+  rw [lexAttr_nobody nm xs hx hp]
+  cases primary <;> rfl
+
+/-- The stack below the `AfterAttr` frame of the record the attribute belongs to. -/
+def attrBase (primary : Bool) (cur0 : PS) (B : List PS) : List PS := if primary then cur0 :: B else B
+
+theorem map_obsOf_fst (l : List Emit) : (l.map obsOf).map Prod.fst = l.map (·.ev) := by
+  induction l with
+  | nil => rfl
+  | cons e r ih => simp [obsOf, ih]
+
+/-- The look-ahead of the repaired `is_implicit_record` on the printed body of an attribute. -/
+theorem implicit_printed {n : Nat} (ih : RH n) (nm : List Char) (v : Value) (hvs : v.size + 1 ≤ n) (hvw : v.wf = true)
+    (hve : v ≠ .extant) (hnf : ∀ f, v ≠ .float f) (st : Style) (i : Nat) (more : List Char) (hm : more ≠ []) :
+    isImplicitRecord (printItems st i i true false (bodyItems v) ++ ')' :: more) = implicitBody v := by
+  have hbs := bodyItems_size v
+  have hrun := ih.items (bodyItems v) (by omega) (bodyItems_wf hvw) st .ab i i false [.init] [.afterAttr] more false [] []
+    White.nil (Or.inl Spaces.nil) rfl (fun _ => bodyItems_notSoleExtant hve) (by intro h; cases h)
+  simp only [Bool.false_eq_true, ↓reduceIte, List.nil_append, Kind.close] at hrun
+  obtain ⟨k, hk, hr⟩ := hrun
+  have hsz := size_le_PA' st i v hvw
+  rw [printA_body' st i hvw hve hnf] at hsz
+  simp only [List.length_cons, List.length_append, List.length_nil] at hsz
+  have hml : 1 ≤ more.length := by
+    cases more with
+    | nil => exact absurd rfl hm
+    | cons _ _ => simp
+  have hF : k ≤ 12 * (printItems st i i true false (bodyItems v) ++ ')' :: more).length + 8 := by
+    simp only [List.length_append, List.length_cons]
+    omega
+  obtain ⟨f0, hf0⟩ : ∃ f0, 12 * (printItems st i i true false (bodyItems v) ++ ')' :: more).length + 8 = k + f0 :=
+    ⟨_, (Nat.add_sub_cancel' hF).symm⟩
+  have hro := hr f0
+  rw [← hf0] at hro
+  have hev : (runFrom (12 * (printItems st i i true false (bodyItems v) ++ ')' :: more).length + 8)
+      [.body .ab .startOrNl, .init] (printItems st i i true false (bodyItems v) ++ ')' :: more)).1.map (·.ev)
+      = (obsI (bodyItems v) ++ [(kindEndEvent .ab, false)] ++ (ro f0 [.afterAttr] more).1).map Prod.fst := by
+    rw [← map_obsOf_fst]
+    have := congrArg (fun p => p.1.map Prod.fst) hro
+    simpa [ro, pre] using this
+  unfold isImplicitRecord
+  simp only [show Generated.ReconEq.implicitByStructure = true by decide, ↓reduceIte]
+  rw [hev]
+  simp only [List.map_append, List.map_cons, List.map_nil, kindEndEvent, List.append_assoc, List.cons_append,
+    List.nil_append]
+  rw [← obsB_bodyItems v hve, obsB_fst nm v]
+  have := look_body (ch := fun _ => true) nm v ((ro f0 [.afterAttr] more).1.map Prod.fst)
+  simpa using this
 
 end SwimVerif.ReconEq
